@@ -147,13 +147,14 @@ RemoveTree(F, p) ==
 (* the directory's own info (only without filters), the visible names, each child's info, and the    *)
 (* same recursively for child directories.                                                           *)
 Visible(F, q, filt) == Exists(F, q) /\ SeqToSet(F[q].hid) \cap SeqToSet(filt) = {}
-RECURSIVE TreeObs(_,_,_)
-TreeObs(F, p, filt) ==
+RECURSIVE TreeObsO(_,_,_,_)
+TreeObsO(F, p, filt, own) ==          \* own: the directory's own info is part of the observation (if there are no filters)
   IF ~Exists(F, p) THEN <<"missing">>
   ELSE IF F[p].t # "dir" THEN <<"file", F[p].s>>
   ELSE LET kids == {q \in DOMAIN F : F[q].par = p /\ Visible(F, q, filt)}
-       IN <<"dir", IF filt = <<>> THEN F[p].s ELSE 0,
-            [q \in kids |-> <<F[q].s, IF F[q].t = "dir" THEN TreeObs(F, q, filt) ELSE <<>> >>] >>
+       IN <<"dir", IF filt = <<>> /\ own THEN F[p].s ELSE 0,
+            [q \in kids |-> <<F[q].s, IF F[q].t = "dir" THEN TreeObsO(F, q, filt, TRUE) ELSE <<>> >>] >>
+TreeObs(F, p, filt) == TreeObsO(F, p, filt, TRUE)
 (* ... and a directory-structure signature: names and types only *)
 RECURSIVE StructObs(_,_,_)
 StructObs(F, p, filt) ==
@@ -192,6 +193,24 @@ RunBody(F, c) ==
 -----------------------------------------------------------------------------
 (* Per-rule client semantics *)
 
+(* A directory input whose path is ALSO the output of a command (the documented idiom: `tool: mkdir, outputs: ["d"]`   *)
+(* next to `inputs: ["d/"]`): the listing rule requests the node of the path itself, which is then a produced node -    *)
+(* its value is the info the producer recorded, not a fresh stat.  desc.nodes[n].rootnode names that node ("" if the    *)
+(* path is not produced).  What such an input observes is the pair <<value of the root node, tree without own info>>.  *)
+RootNode(n) == IF "rootnode" \in DOMAIN NodeRec(n) THEN NodeRec(n).rootnode ELSE ""
+DirObs(F, M, n) ==
+  LET p == PathOf(n)  filt == NodeRec(n).filt  rn == RootNode(n) IN
+  IF NodeRec(n).kind = "dir"
+  THEN (IF rn = "" THEN <<VInvalid, TreeObs(F, p, filt)>>
+        ELSE IF filt # <<>> THEN <<VInvalid, TreeObsO(F, p, filt, FALSE)>>   \* (a filtered listing stats the path itself)
+        ELSE LET rv == Get(M, NK(rn)).val IN
+             (* the unfiltered listing propagates a missing / failed / skipped root node without looking at the directory *)
+             IF rv.k \in {"MissingInput", "MissingOutput"} THEN <<VMissingIn, <<"-">> >>
+             ELSE IF rv.k \in {"FailedInput", "SkippedCommand"} THEN <<rv, <<"-">> >>
+             ELSE <<rv, TreeObsO(F, p, filt, FALSE)>>)
+  ELSE <<VInvalid, StructObs(F, p, filt)>>
+DirVal(F, M, n) == IF NodeRec(n).kind = "dir" THEN VTreeSig(DirObs(F, M, n)) ELSE VStructSig(DirObs(F, M, n))
+
 (* is the stored value v of key k still valid against the file system F ?  (Rule::isResultValid) *)
 CmdValid(c, v, F) ==
   LET d == Cmd(c) IN
@@ -204,7 +223,7 @@ CmdValid(c, v, F) ==
     [] d.tool = "symlink" -> /\ v.k = "SuccessfulCommand" /\ Len(v.i) = 1
                              /\ Exists(F, PathOf(d.outs[1])) /\ v.i[1] = Info(F, PathOf(d.outs[1]))
     [] OTHER -> FALSE                      \* stale-file-removal always runs
-ValidNow(k, v, F) ==
+ValidNow(k, v, F, M) ==
   CASE k.t = "T" -> FALSE
     [] k.t = "C" -> IF k.n \in Cmds THEN CmdValid(k.n, v, F) ELSE FALSE
     [] OTHER ->  \* node
@@ -218,8 +237,7 @@ ValidNow(k, v, F) ==
                    IF Exists(F, PathOf(n)) THEN v = VExisting(Info(F, PathOf(n))) ELSE v.k = "MissingInput"
               [] OTHER -> (* directory nodes: re-derived from the tree on every demand (their sub-rules *)
                           (* validate themselves against the file system)                              *)
-                          IF NodeRec(n).kind = "dir" THEN v = VTreeSig(TreeObs(F, PathOf(n), NodeRec(n).filt))
-                          ELSE v = VStructSig(StructObs(F, PathOf(n), NodeRec(n).filt))
+                          v = DirVal(F, M, n)
 
 (* ExternalCommand::getResultForOutput *)
 ResultForOutput(c, n, v) ==
@@ -242,7 +260,7 @@ SkipFor(c, v) ==
 (* Build state S: [fs, mem, done, ran, status, reasons, failures, errors,    *)
 (*                 removed]                                                  *)
 
-NewBuild(F, M, D) == [fs |-> F, mem |-> M, db |-> D, done |-> {}, ran |-> <<>>, status |-> <<>>, reasons |-> <<>>,
+NewBuild(F, M, D) == [fs |-> F, mem |-> M, db |-> D, aborted |-> FALSE, done |-> {}, ran |-> <<>>, status |-> <<>>, reasons |-> <<>>,
                    failures |-> 0, errors |-> 0, removed |-> <<>>, skipped |-> {}]
 
 Put(m, k, r) == [x \in DOMAIN m \cup {k} |-> IF x = k THEN r ELSE m[x]]
@@ -259,12 +277,16 @@ RECURSIVE Ensure(_,_), ScanDeps(_,_,_), EnsureAll(_,_), RunRule(_,_,_,_)
 
 EnsureAll(ks, S) == IF ks = <<>> THEN S ELSE EnsureAll(Tail(ks), Ensure(Head(ks), S))
 
-Ensure(k, S) ==
-  IF k \in S.done THEN S
-  ELSE LET r == Get(S.mem, k) IN
+Ensure(k, S0) ==
+  IF k \in S0.done \/ S0.aborted THEN S0
+  ELSE LET (* scanning a directory input whose path is itself produced first brings the node of that path up to date *)
+           (* (it is a dependency of the listing sub-rule); only a changed OBSERVATION re-derives the input node     *)
+           S == IF k.t = "N" /\ NodeRec(k.n).kind \in {"dir", "dirstruct"} /\ Producers(k.n) = {} /\ RootNode(k.n) # ""
+                THEN Ensure(NK(RootNode(k.n)), S0) ELSE S0
+           r == Get(S.mem, k) IN
        IF r.built = 0 THEN RunRule(k, S, "NeverBuilt", NoKey)
        ELSE IF r.sig # SigOf(k) THEN RunRule(k, S, "SignatureChanged", NoKey)
-       ELSE IF ~ValidNow(k, r.val, S.fs) THEN RunRule(k, S, "InvalidValue", NoKey)
+       ELSE IF ~ValidNow(k, r.val, S.fs, S.mem) THEN RunRule(k, S, "InvalidValue", NoKey)
        ELSE ScanDeps(k, S, 1)
 
 ScanDeps(k, S, i) ==
@@ -318,8 +340,8 @@ RunRule(k, S0, reason, inp) ==
          ELSE CASE NodeRec(n).kind = "virtual" -> Finish(S, k, VVirtual, FALSE, <<>>)
                 [] NodeRec(n).kind = "file" ->
                      Finish(S, k, IF Exists(S.fs, PathOf(n)) THEN VExisting(Info(S.fs, PathOf(n))) ELSE VMissingIn, FALSE, <<>>)
-                [] NodeRec(n).kind = "dir" -> Finish(S, k, VTreeSig(TreeObs(S.fs, PathOf(n), NodeRec(n).filt)), FALSE, <<>>)
-                [] OTHER -> Finish(S, k, VStructSig(StructObs(S.fs, PathOf(n), NodeRec(n).filt)), FALSE, <<>>)
+                [] OTHER ->      \* directory / structure input: the node of the path itself is brought up to date first
+                     Finish(S, k, DirVal(S.fs, S.mem, n), FALSE, <<>>)
     [] OTHER ->  \* command
          LET c == k.n IN
          IF c \notin Cmds THEN Finish(S, k, VInvalid, TRUE, <<>>)              \* MissingCommandTask
@@ -473,7 +495,7 @@ FailureStops ==
 (* ... and the recorded result of a failed or skipped command is never valid *)
 FailureRetried ==
   \A c \in Cmds : Get(mem, CK(c)).val.k \in {"FailedCommand", "PropagatedFailureCommand", "CancelledCommand", "SkippedCommand"}
-                    => ~ValidNow(CK(c), Get(mem, CK(c)).val, fs)
+                    => ~ValidNow(CK(c), Get(mem, CK(c)).val, fs, mem)
 
 (* C14: stale-file removal removes only previously expected, no longer expected paths under the roots *)
 StaleOnlyObsolete ==
